@@ -130,3 +130,85 @@ Proof.
     replace (lookup lower_fixed A b <? len A) with true by (symmetry; apply Z.ltb_lt; lia). reflexivity.
   - rewrite (H2 eq_refl). reflexivity.
 Qed.
+
+(* kind 4: numeric offset encodings — whatever the model returns satisfies spec_ok *)
+From BNP Require Import Proofs.C06_ext.
+
+Lemma map_len_map_map (f : Z -> Z) rows : zlist_eqb (map len (map (map f) rows)) (map len rows) = true.
+Proof.
+  apply zlist_eqb_eq. rewrite map_map. apply map_ext. intros r. unfold len. rewrite map_length. reflexivity.
+Qed.
+
+Lemma link_numeric L v c mc :
+  k_kind c = 4 -> k_alpha c = [mc] -> 0 <= mc -> Forall (Forall byte) (k_rows c) ->
+  spec_ok (set_out c (model_out_ext L v c)) = true.
+Proof.
+  intros Hk Ha Hmc Hb. unfold spec_ok, model_out_ext. simpl. rewrite Hk, Ha. simpl.
+  change (nthZ [mc] 0) with mc.
+  destruct (k_route c =? 9) eqn:E9.
+  - unfold num_rows. rewrite E9. simpl. rewrite zll_refl. simpl. apply zll_eqb_eq. reflexivity.
+  - destruct (is_str_route (k_route c) && existsb (fun c0 => 128 <=? c0) (concat (k_rows c))) eqn:Eu.
+    + unfold num_rows. rewrite E9, Eu. reflexivity.
+    + rewrite (num_rows_roundtrip (k_route c) mc (k_rows c) Hb) by (try (apply Z.eqb_neq; exact E9); exact Eu).
+      cbv iota beta. rewrite zll_refl, map_len_map_map. simpl.
+      rewrite <- concat_map. rewrite all_true_combine_map. apply forallb_forall. intros b Hin.
+      assert (Bb : byte b).
+      { clear - Hb Hin. induction Hb as [|r rows Hr _ IH]; simpl in Hin. contradiction.
+        apply in_app_or in Hin as [H|H]. rewrite Forall_forall in Hr. apply Hr; exact H. apply IH; exact H. }
+      assert (R : 0 <= num_encode_u8 b mc < 256) by (unfold num_encode_u8; apply Z.mod_pos_bound; lia).
+      replace (0 <=? num_encode_u8 b mc) with true by (symmetry; apply Z.leb_le; lia).
+      replace (num_encode_u8 b mc <? 256) with true by (symmetry; apply Z.ltb_lt; lia). simpl.
+      destruct (mc <=? b) eqn:Em; [|reflexivity]. apply Z.leb_le in Em. unfold byte in Bb.
+      destruct (num_encode_u8_in_range b mc Hmc) as [Eq _]. lia. rewrite Eq. apply Z.eqb_refl.
+Qed.
+
+(* kind 5: StringEncoding, repaired variant (verify = true) *)
+Lemma find_pos_some q ls : forall i j, find_pos q ls i = Some j ->
+  exists k : nat, j = i + Z.of_nat k /\ (k < length ls)%nat /\ nth k ls [] = q.
+Proof.
+  induction ls as [|l r IH]; intros i j H; simpl in H. discriminate.
+  destruct (zlist_eqb l q) eqn:E.
+  - assert (j = i) by congruence. subst j. exists O. simpl. split. lia. split. lia. apply zlist_eqb_eq. exact E.
+  - apply IH in H as [k [Hj [Hk Hn]]]. exists (S k). simpl. split. lia. split. lia. exact Hn.
+Qed.
+
+Lemma find_pos_none q ls : forall i, find_pos q ls i = None -> ~ In q ls.
+Proof.
+  induction ls as [|l r IH]; intros i H; simpl in *. tauto.
+  destruct (zlist_eqb l q) eqn:E. discriminate.
+  intros [H1|H1]. subst. assert (zlist_eqb q q = true) by (apply zlist_eqb_eq; reflexivity). congruence.
+  eapply IH; eauto.
+Qed.
+
+Lemma str_encode_true_all_known labels : nodupb (map str_hash labels) = true -> forall qs,
+  forallb (fun q => match find_pos q labels 0 with Some _ => true | None => false end) qs = true ->
+  exists idx, all_some (map (str_lookup true labels) qs) = Some idx
+    /\ list_eqb2 (fun a b => match b with Some j => a =? j | None => false end) idx (map (fun q => find_pos q labels 0) qs) = true.
+Proof.
+  intros Hn. induction qs as [|q qs IH]; intros H; simpl in *. exists []. auto.
+  apply andb_true_iff in H as [H1 H2]. destruct (IH H2) as [idx [E1 E2]].
+  destruct (find_pos q labels 0) as [j|] eqn:Ep; [|discriminate].
+  apply find_pos_some in Ep as [k [Hj [Hk Hq]]]. simpl in Hj. subst j.
+  subst q. rewrite (str_lookup_label true labels k Hn Hk). rewrite E1.
+  exists (Z.of_nat k :: idx). split. reflexivity. simpl. rewrite Z.eqb_refl, E2. reflexivity.
+Qed.
+
+Lemma link_string c n :
+  k_kind c = 5 -> k_alpha c = [Z.of_nat n] ->
+  nodupb (map str_hash (firstn n (k_rows c))) = true ->
+  spec_ok (set_out c (model_out_ext lower_fixed true c)) = true.
+Proof.
+  intros Hk Ha Hn. unfold spec_ok, model_out_ext. simpl. rewrite Hk, Ha. simpl.
+  change (nthZ [Z.of_nat n] 0) with (Z.of_nat n). rewrite Nat2Z.id.
+  set (labels := firstn n (k_rows c)) in *. set (qs := skipn n (k_rows c)).
+  destruct (forallb (fun q => match find_pos q labels 0 with Some _ => true | None => false end) qs) eqn:Ef.
+  - destruct (str_encode_true_all_known labels Hn qs Ef) as [idx [E1 E2]].
+    assert (Es : str_encode true labels qs = Ok idx) by (unfold str_encode; rewrite Hn, E1; reflexivity).
+    rewrite Es, (str_encode_true_sound labels qs idx Es). simpl. rewrite zll_refl, E2. reflexivity.
+  - assert (Hex : exists q, In q qs /\ ~ In q labels).
+    { clear - Ef. induction qs as [|q qs IH]; simpl in Ef. discriminate.
+      destruct (find_pos q labels 0) eqn:Ep.
+      - simpl in Ef. destruct (IH Ef) as [q' [H1 H2]]. exists q'. split. right; exact H1. exact H2.
+      - exists q. split. left; reflexivity. eapply find_pos_none; eauto. }
+    destruct Hex as [q [Hq Hl]]. rewrite (str_encode_true_reject labels qs q Hn Hq Hl). reflexivity.
+Qed.
